@@ -58,6 +58,10 @@ type FD struct {
 	// byte streams (ghost): everything delivered to readers / accepted from writers
 	Delivered []byte
 	Accepted  []byte
+	Script    []byte // if Scripted: the bytes the peer has sent so far (harness-controlled input)
+	ScriptOff int
+	Scripted  bool
+	ScriptEOF bool // the peer has closed after the script
 	PeerGone  bool // hang-up state for pipes (no writer left / no reader left)
 	HupSeen   bool // epoll has reported ERR/HUP for this descriptor: the condition is permanent, I/O no longer blocks
 
@@ -223,6 +227,19 @@ func allocNoFail(kind Kind) (int, syscall.Errno) {
 	return fd, e
 }
 
+// PeerSends appends bytes to the scripted input of fd (the harness is the peer).
+func PeerSends(fd int, b []byte) {
+	f := &K.FDs[fd]
+	f.Scripted = true
+	f.Script = append(f.Script, b...)
+}
+
+// PeerCloses marks the end of the scripted input.
+func PeerCloses(fd int) {
+	K.FDs[fd].Scripted = true
+	K.FDs[fd].ScriptEOF = true
+}
+
 // ---- read / write ----
 
 const (
@@ -287,6 +304,25 @@ func Read(fd int, p []byte) (int, syscall.Errno) {
 	case KStream, KPipeR, KFile, KDgram:
 		if len(p) == 0 {
 			return 0, 0
+		}
+		if f.Scripted {
+			rem := len(f.Script) - f.ScriptOff
+			if rem == 0 {
+				if f.ScriptEOF {
+					return 0, 0
+				}
+				return -1, syscall.EAGAIN
+			}
+			n := rem
+			if n > len(p) {
+				n = len(p)
+			}
+			if K.Cfg.AllowPartial && n > 1 && vf.Bool("read.short") {
+				n = 1 + vf.Choice("read.n", n-1)
+			}
+			copy(p, f.Script[f.ScriptOff:f.ScriptOff+n])
+			f.ScriptOff += n
+			return n, 0
 		}
 		switch pickOutcome("read", f.Kind != KFile && f.NonBlock && !f.HupSeen) {
 		case outAgain:
@@ -544,6 +580,9 @@ func EpollWait(epfd int, out []Ready, timeoutMs int) (int, syscall.Errno) {
 					continue
 				}
 			}
+			if f.Scripted && f.Ep[ep].Events&EPOLLOUT == 0 && f.ScriptOff >= len(f.Script) && !f.ScriptEOF {
+				continue // only interested in input, and there is none
+			}
 			cand[nc] = i
 			nc++
 		}
@@ -568,6 +607,9 @@ func EpollWait(epfd int, out []Ready, timeoutMs int) (int, syscall.Errno) {
 				}
 				if m&(EPOLLIN|EPOLLOUT)&^reg != 0 {
 					continue
+				}
+				if f.Scripted && m&EPOLLIN != 0 && f.ScriptOff >= len(f.Script) && !f.ScriptEOF {
+					continue // a scripted peer: readable only when it has sent something
 				}
 				hup := m & (EPOLLERR | EPOLLHUP)
 				if hup != 0 {
